@@ -16,7 +16,7 @@ GeoOk(e) == LET N == e.n IN
    /\ Len(e.out) = N
    /\ (N >= 2 => e.out[1] = e.first /\ e.out[N] = e.last)
    /\ \A i \in 1..(N-1) : e.out[i][1] <= e.out[i+1][1]                   \* test paths run eastwards
-Ok(e) == e.k = "resample" /\ (IF e.geo = 1 THEN GeoOk(e) ELSE ExactOk(e))
+Ok(e) == e.k = "resample" /\ (IF e.geo = 1 THEN GeoOk(e) ELSE ExactOk(e) /\ e.pstable = 1)
 Init == l = 1 /\ bad = {}
 Next == /\ l <= Len(Trace) /\ l' = l + 1
         /\ bad' = IF Ok(Trace[l]) THEN bad ELSE bad \cup {l}
